@@ -13,6 +13,11 @@ behaviour; it never re-scans a text, it knows the pieces the text was assembled 
            the caller scope is given either as explicit globals/locals or implicitly, by calling from inside a
            generated function frame; the (sql, arguments) seen by the sqlite3 driver and the rows that come back
            must equal the reference.
+  retype   ONE query location (a query string, or a real function = one code object) holding raw_sql() fragment(s)
+           in filter / projection / ordering position is executed two or three times from a brand-new Database with
+           values of DIFFERENT Python types for the same `$` names (int, float, Decimal, str, date, datetime, time,
+           timedelta, bool, None), and again in the reversed order; every execution is judged on its own (driver
+           argument values AND types, fragment text, rows / ordering) -- see vlib/c30_retype.py.
 """
 import os, sys, json, subprocess
 
@@ -28,16 +33,22 @@ RULE = ('A text is assembled by construction from literal pieces (SQL words, quo
         'raw_sql() parse, or one live execution through an entry point (scope passed explicitly or taken from the calling frame). Non-trivial = the text has at least one '
         '$-expression AND (a literal %, a `$$`, a trailing `;`, or an expression that is not a bare name); for history '
         'steps additionally: an earlier step of the same case adapted the same text under another style or its '
-        '%/%%-variant under the same style. Distinct = hash of (sql text, style or entry point[, preceding steps]).')
+        '%/%%-variant under the same style. Re-typing cases: one query location with raw_sql() fragments (filter, '
+        'projection, ordering position; string query or function) run 2-3 times, forward and reversed, with values of '
+        'different Python types for the same $ names; one case = one execution, non-trivial = some name is bound to a '
+        'type that differs from an earlier execution at the same location. '
+        'Distinct = hash of (sql text, style or entry point[, preceding steps / preceding value types]).')
 ASSUMPTIONS = ['Python eval() of the generated expression source in the generated globals/locals is the value that must be bound',
                'DB-API format/pyformat drivers apply `sql % params` only when parameters are passed; qmark/numeric/named drivers do not touch the text',
                'SQLite 3 through the stdlib sqlite3 module echoes bound values and string literals unchanged and ignores comments',
+               "Pony's documented SQLite storage formats give the bound form of non-primitive values (Decimal -> str, date/datetime/time -> ISO text, timedelta -> days as float)",
                'styles other than qmark are judged at adapt_sql level (text + evaluated argument code); no format-style driver is available']
 SHARDS = {'quick': 4, 'thorough': 16}
 MIN_EVALS = {'quick': 12000, 'thorough': 300000}
 CLASS_FLOORS = {'live': 0.05, 'history': 0.12, 'hist:pct_pair': 0.004, 'hist:dependent_step': 0.25, 'f:pct': 0.15,
                 'f:dd': 0.10, 'f:semi': 0.10, 'f:paren': 0.10, 'f:call': 0.15, 'f:subscript': 0.08, 'f:attr': 0.15,
-                'f:nonascii': 0.06, 'f:newline': 0.06, 'style:pyformat': 0.07, 'style:raw': 0.05, 'entry:raw_if': 0.004}
+                'f:nonascii': 0.06, 'f:newline': 0.06, 'style:pyformat': 0.07, 'style:raw': 0.05, 'entry:raw_if': 0.004,
+                'retype': 0.01, 'retype:retyped': 0.005}
 
 HOME = os.path.dirname(os.path.dirname(os.path.abspath(__file__)))
 
@@ -238,7 +249,34 @@ def run(ctx):
                 what, msg = verdict
                 ctx.fail(dict(case, fail={'what': what}), msg)
 
-    # the three searches are interleaved in rounds, so that a wall-clock stop (overloaded machine) still leaves every
+    # ---- 4. one query location, differently typed values ---------------------------------------------
+    from vlib import c30_retype as RT
+
+    def t_retype(case):
+        for variant, c in (('forward', case), ('reversed', RT.reversed_case(case))):
+            verdicts = RT.run_case(c)
+            pos = RT.SHAPES[c['shape']][0]
+            for k, verdict in enumerate(verdicts):
+                re_t = RT.retyped(c, k)
+                classes = ['retype', 'retype:' + variant, 'retype:shape:' + c['shape'], 'retype:mode:' + c['mode']]
+                classes += ['retype:pos:' + p for p in pos.split('+')]
+                classes += ['retype:type:' + c['runs'][k]['v']['t']]
+                if re_t:
+                    classes.append('retype:retyped')
+                ctx.case(key=['retype', c['shape'], c['mode'], [R.assemble(p) for _, p in RT.frag_texts(c)],
+                              RT.type_names(c, k)], nontrivial=re_t, classes=classes,
+                         sample={'location': RT.query_source(c['shape'], dict((n, repr(R.assemble(p)))
+                                                                              for n, p in RT.frag_texts(c))),
+                                 'mode': c['mode'], 'value_types_so_far': RT.type_names(c, k)} if re_t else None)
+                if verdict is not None:
+                    what, msg = verdict
+                    cold = RT.cold_verdict(c, k) if k else verdict
+                    if cold is None:
+                        msg = ('ORDER-DEPENDENT (correct at a new location, wrong after %d earlier execution(s) with '
+                               'other value types): ' % k) + msg
+                    ctx.fail(dict(c, runs=c['runs'][:k + 1], fail={'run': k, 'what': what, 'cold_ok': cold is None}), msg)
+
+    # the searches are interleaved in rounds, so that a wall-clock stop (overloaded machine) still leaves every
     # class represented; round 0 carries the plain names
     rounds = ctx.scale(1, 5)
     for r in range(rounds):
@@ -246,7 +284,8 @@ def run(ctx):
         fresh_left[0] = ctx.scale(0, 6)
         for name, fn, strat, n in (('styles', t_styles, dict(case=style_cases()), ctx.scale(300, 400)),
                                    ('history', t_history, dict(case=history_cases()), ctx.scale(350, 450)),
-                                   ('live', t_live, dict(batch=LV.live_batches()), ctx.scale(90, 150))):
+                                   ('live', t_live, dict(batch=LV.live_batches()), ctx.scale(90, 150)),
+                                   ('retype', t_retype, dict(case=RT.retype_cases()), ctx.scale(50, 90))):
             ctx.run_test(fn, strat, max_examples=n, name=name + suffix)
             if ctx.violation:
                 return
@@ -261,6 +300,18 @@ def replay(case):
         R.clear_caches()
         verdict = LV.run_live(case)
         return verdict[1] if verdict else None
+    if case['kind'] == 'retype':
+        from vlib import c30_retype as RT
+        verdicts = RT.run_case(case)
+        k0 = case.get('fail', {}).get('run')
+        order = ([k0] if k0 is not None and k0 < len(verdicts) else []) + list(range(len(verdicts)))
+        for k in order:
+            if verdicts[k] is not None:
+                cold = RT.cold_verdict(case, k) if k else verdicts[k]
+                pre = ('ORDER-DEPENDENT (correct at a new location, wrong after %d earlier execution(s) with other '
+                       'value types): ' % k) if cold is None else ''
+                return pre + verdicts[k][1]
+        return None
     if case.get('fresh'):
         obs, verdict = judge_fresh(case['scope'], case['steps'][0])
         return ('in a fresh process: ' + verdict[1]) if verdict else None
@@ -366,7 +417,9 @@ MANIFEST = {
             '(thorough tier: also a fresh interpreter); on live SQLite every public entry point (db.select/get/exists/execute, '
             'select_by_sql/get_by_sql, raw_sql() in generator, lambda, filter, where, expression and two-fragment queries) is '
             'executed, with the caller scope passed explicitly or found through a generated calling frame, and both the (sql, arguments) seen by the sqlite3 driver and the returned rows are compared with the '
-            'reference. Sampled, not exhaustive: it cannot establish the claim for all texts, scopes and histories.',
+            'reference; one query location with raw_sql() fragments in filter, projection and ordering position is re-executed '
+            'from a new Database with int/float/Decimal/str/date/datetime/time/timedelta/bool/None values for the same $ names '
+            '(forward and reversed order), each execution judged on its own. Sampled, not exhaustive: it cannot establish the claim for all texts, scopes and histories.',
     'note': 'Only SQLite (qmark) is executed; numeric/named/format/pyformat are judged on the adapted text and evaluated '
             'argument code, and raw_sql() fragments under non-qmark providers are not covered. Expressions with white space '
             'between their trailers, `$` not followed by an identifier or parenthesis, and identifiers glued to following word '
